@@ -122,7 +122,7 @@ def check_reader(rep, prog, c, pf):
         # one named exception: SubPackets.parse copies the whole hashed area out verbatim (C05) before parsing it field by field;
         # that copy is a deliberate peek, not a field read: a read of [: 2 + <the two-octet count just read>] stored untransformed
         if c.name in ('SubPackets', 'UserAttributeSubPackets') and pf.cls.name == 'SubPackets':
-            a = [p for p in a if not _is_area_peek(p, buf, pf.params[0])]
+            a = [p for p in a if not _is_area_peek(p, buf, reads)]
         b = [p for p in problems if p[0] == 'alias-then-consume']
         rep.check(not a, 'C08.a', construct, a[0][1] if a else 'consumes what it reads',
                   'the reader reads octets it does not consume (or consumes fewer than it read): the next field starts at the wrong offset'
@@ -133,13 +133,21 @@ def check_reader(rep, prog, c, pf):
         check_remainder(rep, c, pf, reads, scen, construct, s)
 
 
-def _is_area_peek(problem, buf, p0):
+def _is_area_peek(problem, buf, reads):
+    """The problematic read is buf[: 2 + n], stored untransformed, where n is a function of the first two octets only (the count that
+    is consumed next), whatever conversion and temporaries the source spells."""
     r = getattr(problem, 'read', None)
     if r is None or (r.post is not None and r.post != r.text):
         return False
     rng = codec.slice_of(r.text, buf)
-    count = '%s.bytes_to_int(%s)' % (p0, sl(buf, ('', 2)))
-    return rng is not None and rng[0] in ('', '0') and r.text == sl(buf, ('', lin_add('2', count)))
+    if rng is None or rng[0] not in ('', '0') or r.text != sl(buf, ('', rng[1])):
+        return False
+    terms, const = lin_parse(rng[1])
+    if const != 2 or len(terms) != 1 or list(terms.values()) != [1]:
+        return False
+    n = list(terms)[0]
+    two = sl(buf, ('', 2))
+    return two in n and not codec.mentions(n.replace(two, ''), buf)
 
 
 def _remainder(text, length):
@@ -761,7 +769,9 @@ def check_dispatcher(rep, prog):
         raise AnalysisError('MetaDispatchable.__call__: no packet parameter')
     p0, buf = md.params[0], md.params[1]
     REG, ROOTS = 'REGISTRY', 'ROOTS'
-    sc = Scenario(inline=noinline, bind={'MetaDispatchable._registry': Sym(REG), 'MetaDispatchable._roots': Sym(ROOTS), '%s._registry' % p0: Sym(REG), '%s._roots' % p0: Sym(ROOTS)},
+    # helpers of the metaclass itself (an object factory hoisted out of __call__, ...) are followed; everything else stays opaque
+    own = lambda fi: fi.cls is not None and fi.cls is md.cls and fi.name != md.name  # noqa: E731
+    sc = Scenario(inline=own, bind={'MetaDispatchable._registry': Sym(REG), 'MetaDispatchable._roots': Sym(ROOTS), '%s._registry' % p0: Sym(REG), '%s._roots' % p0: Sym(ROOTS)},
                   args={buf: Sym(buf, nonnull=True)}, axioms={'(%s in %s)' % (p0, ROOTS): True})
     outs = Interp(prog, sc).run(md)
     keys_used, n = [], 0
